@@ -143,6 +143,8 @@ def _sig(sim):
 
 class C08:
     prop = "C08"
+    state_measure = ("abstraction sampled at every scheduler decision: per queue (pipe length, outstanding count) x per live task "
+                     "(task kind, kind of thing it is blocked on); hashed; distinct values counted")
     level = "exploration"
     design_ref = "DESIGN.md 3.7"
     tiers = {"quick": {"runs": 16000, "budget_s": 80, "chunk": 80, "twice_every": 25, "shrink_s": 40},
